@@ -82,6 +82,12 @@ var fvar F = fn
 var ifaceVal I = T{{}}
 
 const fieldName = "X"
+
+var fieldVar = "X"
+
+var fieldNames = []string{"X"}
+
+func fieldFn() string { return "X" }
 '''
 
 HDR = '''//go:build wireinject
@@ -113,7 +119,7 @@ def spellings():
     # --- wire.Struct first argument / field names
     for k, first in enumerate(["new(T)", "&T{}", "ptrVar", "new(G[int])", "new(struct{ X int })", "(*T)(nil)", "new(*T)", "new(I)", "nil",
                                "0", '"str"', "T{}", "NewPT()", "new(PT)", "new(F)", "new([2]T)"]):
-        for j, fields in enumerate(['"*"', '"X"', "`X`", "fieldName", '"X" + ""', '"X", "Y"', '"*", "X"', "", '"Z"', '"x"', "`*`", '"\\x2a"', '("*")']):
+        for j, fields in enumerate(['"*"', '"X"', "`X`", "fieldName", '"X" + ""', '"X", "Y"', '"*", "X"', "", '"Z"', '"x"', "`*`", '"\\x2a"', '("*")', "fieldVar", "fieldFn()", "fieldNames[0]", "fieldNames...", '("X")', "string(fieldVar)"]):
             if k > 2 and j > 1:
                 continue
             args = first + (", " + fields if fields else "")
@@ -152,7 +158,7 @@ def spellings():
     # --- wire.FieldsOf
     for k, first in enumerate(["new(T)", "new(*T)", "new(*int)", "new(int)", "&T{}", "new(**T)", "nil", "ptrVar", "new(PT)", "new(G[int])",
                                "new(*G[int])", "new(struct{ X int })", "new(I)"]):
-        for j, fields in enumerate(['"X"', "fieldName", '"X", "Y"', '"V"', "`X`", ""]):
+        for j, fields in enumerate(['"X"', "fieldName", '"X", "Y"', '"V"', "`X`", "", "fieldVar", "fieldNames...", "fieldFn()"]):
             if k > 1 and j > 1 and not (j == 3 and "G[" in first):
                 continue
             args = first + (", " + fields if fields else "")
